@@ -329,6 +329,7 @@ const char *null_string = ""; // globals.cc is not linked
 void StatHist::enumInit(unsigned int) {}
 void StatHist::count(double) {}
 StatCounters statCounter;
+fde *fde::Table = nullptr; // fde.cc is not linked
 void StoreEntry::lock(const char *) {}
 int StoreEntry::unlock(const char *) { return 1; }
 int64_t MemObject::endOffset() const { return replyStarted ? 1 : 0; }
@@ -462,6 +463,7 @@ struct Relay {
     unsigned n, cap;      // body size, pipe capacity
     uint8_t body[NBODY + 32];
     uint8_t in[WIREMAX];  // what the client sends after its header: the body, identity or chunked, + 1 byte of the next request
+    bool segEnd[WIREMAX + 1]; // chunked client: where a segment longer than 2 bytes may end (see ARRIVE)
     unsigned inLen, bodyEnd, delivered;
     ClientSide *client;
     BodyPipe::Pointer pipe;
@@ -481,6 +483,7 @@ struct Relay {
         for (unsigned i = 0; i < n; ++i) body[i] = vf_nondet_u8("body");
         // the client's bytes
         inLen = 0;
+        for (unsigned i = 0; i <= WIREMAX; ++i) segEnd[i] = !chunkedIn;
         if (chunkedIn) { // chunks [0,cut) [cut,n), last-chunk; concrete framing, symbolic data
             const unsigned ends[2] = {cut, n};
             unsigned from = 0;
@@ -491,13 +494,16 @@ struct Relay {
                 in[inLen++] = "0123456789ABCDEF"[sz & 15];
                 in[inLen++] = '\r'; in[inLen++] = '\n';
                 for (; from < ends[k]; ++from) in[inLen++] = body[from];
+                segEnd[inLen] = true; // between chunk-data and its CRLF
                 in[inLen++] = '\r'; in[inLen++] = '\n';
+                segEnd[inLen] = true; // between chunks
             }
             in[inLen++] = '0'; in[inLen++] = '\r'; in[inLen++] = '\n'; in[inLen++] = '\r'; in[inLen++] = '\n';
         } else
             for (unsigned i = 0; i < n; ++i) in[inLen++] = body[i];
         bodyEnd = inLen;
-        in[inLen++] = vf_nondet_u8("next"); // first byte of the next pipelined request: must never reach this origin message
+        in[inLen++] = vf_nondet_u8("next");
+        segEnd[bodyEnd] = segEnd[inLen] = true; // first byte of the next pipelined request: must never reach this origin message
         client = new ClientSide;
         pipe = client->expectRequestBody(chunkedIn ? -1 : (int64_t)n, cap);
         request = new HttpRequest(MasterXaction::MakePortful(nullptr));
@@ -524,6 +530,9 @@ struct Relay {
         vf_assert(joined, "the server side joins a pipe nobody has consumed from");
         typedef CommCbMemFunT<HttpStateData, CommIoCbParams> Dialer;
         hs->requestSender = JobCallback(11, 5, Dialer, hs, HttpStateData::sentRequestBody);
+        // sendRequest(): chunk the body iff the request has no Content-Length; a chunked client body has got one only if it
+        // was received completely before now (ConnStateData::finishDechunkingRequest() sets it)
+        chunkedOut = chunkedIn && !bodyComplete();
         hs->flags.chunked_request = chunkedOut;
         Comm::Write(*serverConn, HDR, HDRLEN, hs->requestSender, nullptr);
         started = true;
@@ -543,7 +552,11 @@ struct Relay {
         if (!nev) return;
         switch (ev[vf_choose(nev, "event")]) {
         case ARRIVE: {
-            const unsigned k = (unsigned)vf_concretize(vf_range(1, inLen - delivered, "segment"));
+            // identity bodies: every segment size; chunked bodies (framing segmentation is C24's subject): 1 or 2 bytes, or up
+            // to the end of a chunk's data, of a chunk, of the body, or of everything the client has sent
+            const unsigned ks = vf_range(1, inLen - delivered, "segment");
+            vf_assume(ks <= 2 || segEnd[delivered + ks]);
+            const unsigned k = (unsigned)vf_concretize(ks);
             client->received(in + delivered, k);
             delivered += k;
             break; }
@@ -611,23 +624,44 @@ struct Relay {
 
 #ifdef VF_THOROUGH
 #define NEVENTS 5
+#define NEVENTS_CL 6
 #define RBODY 4
+#define RBODYC 3
 #else
 #define NEVENTS 4
+#define NEVENTS_CL 4
 #define RBODY 3
+#define RBODYC 2
 #endif
 static void relay(const bool chunkedIn)
 {
     vf_quiet();
     Relay r;
-    const unsigned n = (unsigned)vf_concretize(vf_range(chunkedIn ? 0 : 1, RBODY, "bodyLen"));
+    const unsigned n = (unsigned)vf_concretize(vf_range(chunkedIn ? 0 : 1, chunkedIn ? RBODYC : RBODY, "bodyLen"));
     const unsigned cap = (unsigned)vf_concretize(vf_range(1, 2, "cap"));
     const unsigned cut = chunkedIn && n > 1 ? (unsigned)vf_concretize(vf_range(1, n, "chunkCut")) : n;
     r.setup(chunkedIn, chunkedIn, n, cap, cut);
-    for (unsigned i = 0; i < NEVENTS; ++i) r.step();
+    for (unsigned i = 0; i < (chunkedIn ? NEVENTS : NEVENTS_CL); ++i) r.step();
     r.quiesce();
     vf_observe("wireLen", wireLen); vf_observe("closes", serverCloses); vf_observe("put", r.pipe->producedSize());
     WITNESS_POINT();
 }
 extern "C" void c02_relay_cl(void) { relay(false); }
 extern "C" void c02_relay_chunked(void) { relay(true); }
+// chunk sizes that need hex letters / two hex digits: one client chunk of n bytes through a pipe that holds all of it
+extern "C" void c02_relay_hex(void)
+{
+    vf_quiet();
+    Relay r;
+#ifdef VF_THOROUGH
+    const unsigned n = (unsigned)vf_concretize(vf_range(9, 33, "bodyLen"));
+#else
+    static const unsigned sizes[4] = {10, 15, 16, 27};
+    const unsigned n = sizes[vf_concretize(vf_range(0, 3, "bodyLenIdx"))];
+#endif
+    r.setup(true, true, n, n, n);
+    for (unsigned i = 0; i < 3; ++i) r.step();
+    r.quiesce();
+    vf_observe("wireLen", wireLen); vf_observe("closes", serverCloses); vf_observe("put", r.pipe->producedSize());
+    WITNESS_POINT();
+}
